@@ -96,6 +96,7 @@ SessionVerdict(x) ==
                 [] x.clause = "C06.prefix" -> C06Prefix(n, c[1], c[2])
                 [] x.clause = "C06.fault" -> C06Fault(n, c[1], c[2])
                 [] x.clause = "C12.equiv" -> C12Equiv(c[1], c[2])
+                [] x.clause = "C04.equiv" -> C04Equiv(n, c[1], c[2])
                 [] x.clause = "C10.paths" -> C12Equiv(c[1], c[2])
                 [] x.clause = "C10.bitref" -> C10BitRef(n, c[1])
                 [] x.clause = "C15.inverse" -> C12Equiv(c[1], c[2])
